@@ -77,7 +77,12 @@ func (concEngine) Gen(prop string, seed uint64, tier string) *Spec {
 	focusName := concNames[rng.Intn(len(concNames))]
 	focusName2 := concNames[rng.Intn(len(concNames))]
 	focus := rng.Chance(0.7)
-	if prop != "C14" && prop != "C01" && prop != "C07" && rng.Chance(0.08) {
+	if prop != "C14" && prop != "C07" && rng.Chance(0.05) {
+		// directory moves: concurrent renames of the shared directories into each
+		// other's subtrees (the tree must stay a tree whatever the interleaving)
+		spec.Knobs["dirmoves"] = 1
+		focus = false
+	} else if prop != "C14" && prop != "C01" && prop != "C07" && rng.Chance(0.08) {
 		// two large files in the root, and most operations on them by handle and by
 		// name: two background shrinkers at once, truncations, removals and renames of
 		// files whose freeing is still in progress
@@ -132,7 +137,7 @@ func (concEngine) Gen(prop string, seed uint64, tier string) *Spec {
 			if rng.Chance(0.04) {
 				return []string{".", ".."}[rng.Intn(2)]
 			}
-			if rng.Chance(0.05) {
+			if rng.Chance(0.05) || (spec.Knobs["dirmoves"] == 1 && rng.Chance(0.6)) {
 				// the shared directories themselves, by name (rename onto / of an ancestor)
 				return []string{"d1", "d2", "sub"}[rng.Intn(3)]
 			}
@@ -164,6 +169,10 @@ func (concEngine) Gen(prop string, seed uint64, tier string) *Spec {
 				// mostly writes (two thirds UNSTABLE) and COMMITs on a few files; little else,
 				// because every stable operation flushes the log and closes the windows
 				weights = []int{3, 2, 2, 45, 5, 4, 1, 1, 1, 0, 3, 0, 1, 1}
+			}
+			if spec.Knobs["dirmoves"] == 1 {
+				// mostly renames, of and into the shared directories
+				weights = []int{4, 3, 40, 2, 1, 1, 6, 4, 6, 4, 1, 1, 1, 1}
 			}
 			if spec.Knobs["big"] == 2 {
 				// truncations, removals and renames of the two large files
